@@ -132,7 +132,7 @@ CHECKS["C14"] = dict(
 
 CHECKS["C17"] = dict(
     level="exploration",
-    rule=("rapid-generated sequential histories of 2-14 steps over bursts of 30-130 small writes, deletion of whole bursts followed by a collector run, collector runs, reopen, single writes/deletes; 1-3 roots; configured directory limit from {0,1,99,100,101,150} (inline client clamps to >= 100). "
+    rule=("rapid-generated sequential histories of 2-14 steps over bursts of 30-130 small writes, deletion of whole bursts followed by a collector run, collector runs, reopen, single writes/deletes; 1-3 roots; configured directory limit from {0,1,99,100,101,150} (inline client clamps to >= 100); in a third of the cases the roots are not empty when the database is first opened (a file, a directory with a file in it and an empty directory that are not fs_db's: they must stay exactly as they are and never receive content). "
           "Oracle: a walk of the roots after every step (and every 16 writes inside a burst): every entry of a root is a UUID-named directory, every content file sits directly inside one, after a successful write every root has >= 1 directory, no directory exceeds max(limit,100) entries; "
           "after a burst deletion a directory that once reached the limit and regained room must receive one of the next 64*k writes (k = number of directories; miss probability < 2e-28). "
           "non-trivial = some directory reached the limit and a root ended up with >= 2 directories (rotation)."),
